@@ -205,9 +205,9 @@ func genAsmCase(r *core.Rand, cfg core.GenCfg, inject bool) asmCase {
 }
 
 func runC12(c *core.Ctx) error {
-	c.Rule = "histories = a legal call sequence building a generated tree (entry shortcut / key+value / AssignNode of prebuilt nodes / any size hint) with the two pinned rejections injected at random positions (repeated key through AssembleEntry, key AssignString, key AssignNode; kinds the key position or the root prototype cannot hold), over basicnode Any/Map/List/scalar prototypes; the same over the type-level builders of the reflection binding (inferred and caller-supplied Go types) for plain schemas (typed lists, String-keyed maps, structs, scalars; structs around the 64-field mark), there also with kinds the VALUE position cannot hold, AssignNode of a container refused part of the way through its copy (root and nested positions) and struct keys that are no field - every history continued after each refusal; non-trivial = at least one injected rejection or >= 6 calls; distinct by history"
-	c.Explanation = "theorems: generic builders - reject_no_effect, built_nodup, history_result, run of the canonical plan, lookup table/map agreement (frame invariant), the assembler state tables regenerated from map.go/list.go on every run; schema-bound builders (Props/C12typed.lean over Model/TypedAssembler.lean) - typed_reject_no_effect, typed_repeated_key_rejected_at_call / _by_key_assembler, typed_wrong_kind_rejected, typed_assignNode_iff_conforms, typed_built_conforms (Schema.conforms, no repeated key, canonical), typed_built_is_ideal_build / typed_assignNode_is_ofType (tie to C09's ideal whole-value builder), typed_history_result; correspondence: every generic history on asm.run, every typed history on tasm.run (call-by-call outcomes with error classes, node built)"
-	c.Assumptions = []string{"generated code is driven call by call under C13 (c13Histories: both engines against the same typed-assembler model, its named deviations as engine flags)", "misuse orders are outside the quantified space", "typed-assembler model: any, unions, enums and non-String map keys are outside the modelled fragment (the driver answers `unsupported`)"}
+	c.Rule = "histories = a legal call sequence building a generated tree (entry shortcut / key+value / AssignNode of prebuilt nodes / any size hint) with the two pinned rejections injected at random positions (repeated key through AssembleEntry, key AssignString, key AssignNode; kinds the key position or the root prototype cannot hold), over basicnode Any/Map/List/scalar prototypes; the same over the builders of the reflection binding (inferred and caller-supplied Go types): TYPE level, value-directed on plain schemas (typed lists, String-keyed maps, structs with required / optional / nullable fields, scalars; structs around the 64-field mark) and type-directed on any schema (core.GenTypedHistory), REPRESENTATION level type-directed on any schema (map representation with renamed keys and optional fields, tuples with trailing optional fields missing, stringjoin, keyed / kinded / stringprefix unions, enums, nullable slots) - there also with kinds the VALUE position cannot hold (also where it holds several), Finish while a required field or the union's member is missing, AssignNode of a container refused part of the way through its copy (root and nested positions), struct keys that are no field (at representation level the original name of a renamed field), second / unknown keys of keyed unions, AssembleValue past the last tuple field, BeginMap on a representation that is no map - every history continued after each refusal (the last four, which the engines answer differently, against the model only) - and with a first history (complete, cut off, cut off + one more call) and a Reset in front; non-trivial = at least one injected rejection or >= 6 calls; distinct by history"
+	c.Explanation = "theorems: generic builders - reject_no_effect, built_nodup, history_result, run of the canonical plan, lookup table/map agreement (frame invariant), the assembler state tables regenerated from map.go/list.go on every run; schema-bound builders, type level (Props/C12typed.lean over Model/TypedAssembler.lean) - typed_reject_no_effect, typed_repeated_key_rejected_at_call / _by_key_assembler, typed_wrong_kind_rejected, typed_assignNode_iff_conforms, typed_built_conforms (Schema.conforms, no repeated key, canonical), typed_built_is_ideal_build / typed_assignNode_is_ofType (tie to C09's ideal whole-value builder), typed_history_result, typed_reset_is_init / typed_reset_history_result / typed_built_conforms_with_resets; representation level (Props/C12repr.lean over Model/ReprAssembler.lean) - repr_reject_no_effect, repr_repeated_key_rejected_at_call / _by_key_assembler, repr_wrong_kind_rejected with repr_accepts_scalar_iff_conformsRepr / repr_accepts_begin, repr_assignNode_is_build / reprAssignNode_is_ofRepr (AssignNode on a fresh representation builder IS Schema.ofRepr of the ideal engine), repr_built_conforms (conforms, no repeated key, canonical, has a representation), repr_built_is_type_built (the plan of the representation of v builds v, under C08's unambig), repr_history_result, repr_retry / repr_retry_builds, repr_reset_is_init / repr_reset_history_result; correspondence: every generic history on asm.run, every typed history on tasm.run <engine> <type|repr> (call-by-call outcomes - with error classes at type level, accepted / refused + repeated key at representation level - and the node built)"
+	c.Assumptions = []string{"generated code is driven call by call under C13 (c13Histories / c13Retry / c13Reset: both engines against the same typed-assembler models, their named deviations as engine flags)", "misuse orders are outside the quantified space", "typed-assembler models: type level - any, unions, enums and non-String map keys are outside the modelled fragment; representation level - any and the listpairs representation (the driver answers `unsupported`; the oracles still apply)", "representation level: the reflection binding accepts BeginMap on representations that are no map (engine flag RAsm.Engine.beginMapAny, reported): such a BeginMap is run against the model only, not injected into histories with expectations (core.BindnodeReprBeginMapRefused)"}
 	n := c.Pick(6000, 400000)
 	cfg := core.DefaultGen
 	cfg.MaxDepth = 5
@@ -262,6 +262,7 @@ var c12WideCounter uint64
 
 type c12TypedCase struct {
 	sc    *schemaCase
+	lvl   string // "type" | "repr": the builder the history runs on
 	ops   []core.AsmOp
 	want  string // "built …", or "" when the history has no prescribed result (correspondence only)
 	line  string
@@ -311,7 +312,16 @@ func unknownFieldTail(ops []core.AsmOp, r *core.Rand) []core.AsmOp {
 }
 
 func c12TypedRun(c *core.Ctx, cs *c12TypedCase, r *core.Rand) error {
-	nb, err := cs.sc.Eng.NewTypeBuilder(cs.sc.T.Name)
+	if cs.lvl == "" {
+		cs.lvl = "type"
+	}
+	var nb datamodel.NodeBuilder
+	var err error
+	if cs.lvl == "repr" {
+		nb, err = cs.sc.Eng.NewReprBuilder(cs.sc.T.Name)
+	} else {
+		nb, err = cs.sc.Eng.NewTypeBuilder(cs.sc.T.Name)
+	}
 	if err != nil {
 		return err
 	}
@@ -324,8 +334,12 @@ func c12TypedRun(c *core.Ctx, cs *c12TypedCase, r *core.Rand) error {
 		return n, err
 	})
 	cs.impl = strings.Join(cs.io, " ") + " | " + cs.final
-	cs.line = "c12.typed " + cs.sc.Eng.Name() + " " + cs.sc.T.Tokens() + " OPS " + core.OpsLine(cs.ops)
-	cs.tasm = core.TasmLine(cs.sc.Eng.ModelName(), cs.sc.T, cs.ops)
+	lv := ""
+	if cs.lvl == "repr" {
+		lv = "repr "
+	}
+	cs.line = "c12.typed " + cs.sc.Eng.Name() + " " + lv + cs.sc.T.Tokens() + " OPS " + core.OpsLine(cs.ops)
+	cs.tasm = core.TasmLineLvl(cs.sc.Eng.ModelName(), cs.lvl, cs.sc.T, cs.ops)
 	return nil
 }
 
@@ -337,25 +351,38 @@ func c12TypedJudge(c *core.Ctx, cs *c12TypedCase, model string) {
 		if j >= len(io) {
 			break
 		}
+		if op.Note == "before-reset" {
+			continue // the first history of a reset case: whatever it does (also misuse), the Reset makes the builder new
+		}
 		if io[j] == "panic" {
 			c.Fail("C12/panic-on-legal-history", core.Replay{Kind: "oracle", Case: line, Impl: impl, Detail: fmt.Sprintf("call %d (%s) panicked", j, op.Tokens())})
 			bad = true
 			break
 		}
-		okErr := op.Expect != "ok" && op.Expect != "e:repeatedKey" && strings.HasPrefix(io[j], "e:") // any error class reports an unacceptable kind
+		okErr := op.Expect != "ok" && op.Expect != "reset" && op.Expect != "e:repeatedKey" && strings.HasPrefix(io[j], "e:") // any error class reports an unacceptable kind
 		if op.Expect != "" && io[j] != op.Expect && !okErr {
 			sig := "C12/call-outcome"
 			if op.Expect == "e:repeatedKey" {
 				sig = "C12/repeated-key-not-rejected-at-call"
 			} else if op.Expect == "e:refusedNode" {
 				sig = "C12/nonconforming-node-not-refused"
+			} else if op.Expect == "reset" {
+				sig = "C12/reset-refused"
 			} else if op.Expect != "ok" {
 				sig = "C12/unacceptable-kind-not-reported"
 			} else if j > 0 {
-				// a legal call that is not accepted: after a refused AssignNode it is that refusal that had an effect
+				// a legal call that is not accepted: after a refused AssignNode it is that refusal that had an effect; after a Reset
+				// the builder was not as new
 				for k := j - 1; k >= 0 && ops[k].Expect != "ok"; k-- {
 					if ops[k].Expect == "e:refusedNode" {
 						sig = "C12/refused-assignnode-had-an-effect"
+					}
+				}
+				if sig == "C12/call-outcome" {
+					for k := j - 1; k >= 0; k-- {
+						if ops[k].Kind == "R" {
+							sig = "C12/reset-builder-not-as-new"
+						}
 					}
 				}
 			}
@@ -370,6 +397,9 @@ func c12TypedJudge(c *core.Ctx, cs *c12TypedCase, model string) {
 			if op.Expect == "e:refusedNode" {
 				sig = "C12/refused-assignnode-had-an-effect"
 			}
+			if op.Kind == "R" && sig == "C12/result-not-accepted-entries" {
+				sig = "C12/reset-builder-not-as-new"
+			}
 		}
 		c.Fail(sig, core.Replay{Kind: "oracle", Case: line, Impl: impl, Expected: cs.want})
 	}
@@ -378,7 +408,8 @@ func c12TypedJudge(c *core.Ctx, cs *c12TypedCase, model string) {
 		c.Dist("typed-model:type-outside-the-fragment")
 		return
 	}
-	if d := core.TasmCompare(impl, model, true); d != "" {
+	// type level: call by call with the error classes; representation level: accepted / refused (+ the repeated-key class)
+	if d := core.TasmCompare(impl, model, cs.lvl != "repr"); d != "" {
 		c.Fail("C12/corr-typed-assembler", core.Replay{Kind: "correspondence", Case: cs.tasm, Impl: impl, Model: model, Detail: d + "; history " + line})
 	}
 }
@@ -407,17 +438,26 @@ func c12Typed(c *core.Ctx, r *core.Rand, n int) error {
 		return err
 	}
 	for i := 0; i < n; i++ {
-		t := core.GenPlainSchema(r, 0)
+		// three ways to draw a history: value-directed on a plain type (type level); type-directed (core.GenTypedHistory: the
+		// schema prescribes which calls are refused) at type level; type-directed at representation level on any schema
+		mode := []string{"value", "typed", "repr", "typed", "repr"}[i%5]
+		var t *core.SType
 		wide := i%16 == 5
-		if wide {
+		switch {
+		case wide:
+			mode = "value"
 			// a struct around the 64-field mark (one machine word of field flags): the last fields are supplied twice
 			t = &core.SType{K: "struct", Name: fmt.Sprintf("C12W%d", atomic.AddUint64(&c12WideCounter, 1)), SRepr: "map"}
 			for f := 0; f < []int{63, 64, 65, 66, 70, 130}[r.Intn(6)]; f++ {
 				fn := fmt.Sprintf("f%d", f)
 				t.Fields = append(t.Fields, core.SField{Name: fn, Rename: fn, T: &core.SType{K: []string{"int", "str", "bool"}[r.Intn(3)], Name: fmt.Sprintf("C12W%d", atomic.AddUint64(&c12WideCounter, 1))}})
 			}
+		case mode == "repr" || mode == "typed" && i%2 == 0:
+			t = core.GenSchema(r, cfg)
+		default:
+			t = core.GenPlainSchema(r, 0)
 		}
-		if t.K != "map" && t.K != "list" && t.K != "struct" {
+		if t.K != "map" && t.K != "list" && t.K != "struct" && t.K != "union" {
 			continue
 		}
 		sc, err := newSchemaCase(t)
@@ -425,10 +465,38 @@ func c12Typed(c *core.Ctx, r *core.Rand, n int) error {
 			return fmt.Errorf("c12 typed: %v (%s)", err, t.Tokens())
 		}
 		v := core.GenInhabitant(t, r, cfg, false)
-		input := core.TypeInput(v)
 		inject := i%4 != 0
-		ops := core.GenHistoryOpts(input, r, core.HistoryOpts{Inject: inject, WrongKindValues: inject && !wide, RefusedAssignNode: inject && !wide})
+		lvl := "type"
+		var ops []core.AsmOp
 		want := "built " + v.Term()
+		switch mode {
+		case "value":
+			ops = core.GenHistoryOpts(core.TypeInput(v), r, core.HistoryOpts{Inject: inject, WrongKindValues: inject && !wide, RefusedAssignNode: inject && !wide})
+			if !wide && i%7 == 2 {
+				ops = append(core.ResetPrefix(t, "type", r, cfg), ops...)
+			}
+		default:
+			if mode == "repr" {
+				lvl = "repr"
+			}
+			if i%9 == 4 {
+				// a call the engines answer differently: pinned by the model of the engine only, the history ends there
+				o, what, ok := core.GenTypedHistoryOdd(t, lvl, v, r, cfg)
+				if !ok {
+					continue
+				}
+				if ops = o; what != "" {
+					want = ""
+					c.Dist("typed-odd:" + lvl + ":" + what)
+				}
+			} else {
+				o, ok := core.GenTypedHistory(t, lvl, v, r, cfg, core.TypedHistoryOpts{Inject: inject, Reset: i%4 == 1})
+				if !ok {
+					continue // a value without representation (a tuple with an absent field before a present one)
+				}
+				ops = o
+			}
+		}
 		if wide && len(ops) > 2 && ops[0].Kind == "BM" && ops[len(ops)-1].Kind == "F" {
 			// every field has been supplied: each of the last three once more, in the two ways a key can arrive
 			fin := ops[len(ops)-1]
@@ -444,13 +512,13 @@ func c12Typed(c *core.Ctx, r *core.Rand, n int) error {
 			ops = append(ops, fin)
 			c.Dist("wide-struct-repeated-late-field")
 		}
-		if t.K == "struct" && !wide && i%8 == 3 {
+		if mode == "value" && t.K == "struct" && !wide && i%8 == 3 {
 			if cut := unknownFieldTail(ops, r); cut != nil {
 				ops, want = cut, ""
 				c.Dist("typed-struct-unknown-field-name")
 			}
 		}
-		cs := &c12TypedCase{sc: sc, ops: ops, want: want}
+		cs := &c12TypedCase{sc: sc, lvl: lvl, ops: ops, want: want}
 		if err := c12TypedRun(c, cs, r); err != nil {
 			return err
 		}
@@ -459,12 +527,13 @@ func c12Typed(c *core.Ctx, r *core.Rand, n int) error {
 			if op.Expect != "ok" {
 				injected++
 			}
-			if op.Note != "" {
-				c.Dist("typed-injected:" + op.Note)
+			if op.Note != "" && op.Note != "before-reset" {
+				c.Dist("typed-injected:" + lvl + ":" + op.Note)
 			}
 		}
 		c.Count(cs.line, injected > 0 || len(ops) >= 6)
-		c.Dist("proto:typed-" + t.K)
+		c.Dist("proto:typed-" + lvl + "-" + t.K)
+		c.Dist("typed-history:" + mode)
 		if i < 2 {
 			c.Sample(map[string]string{"case": cs.line, "impl": cs.impl})
 		}
@@ -485,7 +554,11 @@ func replayC12Typed(c *core.Ctx, rp core.Replay) error {
 	if len(f) < 4 {
 		return fmt.Errorf("bad case")
 	}
-	t, rest, err := core.ParseSType(f[2:])
+	lvl, tt := "type", f[2:]
+	if tt[0] == "repr" || tt[0] == "type" {
+		lvl, tt = tt[0], tt[1:]
+	}
+	t, rest, err := core.ParseSType(tt)
 	if err != nil {
 		return err
 	}
@@ -500,12 +573,22 @@ func replayC12Typed(c *core.Ctx, rp core.Replay) error {
 	if err != nil {
 		return err
 	}
-	cs := &c12TypedCase{sc: sc, ops: ops}
+	// whatever comes before the last Reset carries no expectation (it may be cut off, refused or misuse)
+	for last := len(ops) - 1; last >= 0; last-- {
+		if ops[last].Kind == "R" {
+			for i := 0; i < last; i++ {
+				ops[i].Note = "before-reset"
+			}
+			ops[last].Expect = "reset"
+			break
+		}
+	}
+	cs := &c12TypedCase{sc: sc, lvl: lvl, ops: ops}
 	if err := c12TypedRun(c, cs, c.Rand); err != nil {
 		return err
 	}
 	// the intended node is what the contract's machine (no engine deviation) builds from the accepted calls
-	ideal, err := core.RunDriver([]string{core.TasmLine("ideal", t, ops)})
+	ideal, err := core.RunDriver([]string{core.TasmLineLvl("ideal", lvl, t, ops)})
 	if err != nil {
 		return err
 	}
